@@ -350,20 +350,22 @@ Definition hard_split (sep : N) (s : list N) : list (list N) :=
 Definition ch_slash : N := 47.
 Definition star_only : list N := [42].
 
-(* int GetPathDepth(path) (regex/PathMatcher.cpp), the loop on fuel *)
+(* int GetPathDepth(path) (regex/PathMatcher.cpp), the loop on fuel.  [first] = isFirstClause: an empty
+   clause counts unless it is the first one (an empty path has no clauses; "x/" has two, like PutPathString files it) *)
 Fixpoint after_sep (sep : N) (p : list N) : option (list N) :=
   match p with
   | [] => None
   | c :: t => if c =? sep then Some t else after_sep sep t
   end.
-Fixpoint depth_loop (fuel : nat) (p : list N) : nat :=
+Fixpoint depth_loop (fuel : nat) (p : list N) (first : bool) : nat :=
   match fuel with
   | O => O
-  | S f => ((if is_nil p then 0 else 1) + match after_sep ch_slash p with Some t => depth_loop f t | None => 0 end)%nat
+  | S f => ((if negb (is_nil p) || negb first then 1 else 0) +
+            match after_sep ch_slash p with Some t => depth_loop f t false | None => 0 end)%nat
   end.
 Definition skip_slash (p : list N) : list N :=
   match p with c :: t => if c =? ch_slash then t else p | [] => p end.
-Definition path_depth (p : list N) : nat := let q := skip_slash p in depth_loop (S (length q)) q.
+Definition path_depth (p : list N) : nat := let q := skip_slash p in depth_loop (S (length q)) q true.
 
 Section Glue.
   Variable engine : list N -> rx.
